@@ -81,12 +81,58 @@ def run_dist(ctx, cfg, ranks, tag):
 THEOREMS_D = ['RootSim.PrefixUnique.prefix_unique', 'RootSim.PrefixUnique.history_unique']
 
 
+def run_rank(ctx, cfg, ranks, tag):
+    """full-vocabulary trace of every rank re-executed on the LP model (remote sends, remote anti-messages incl. early ones,
+    free-at-GVT lists); contents of messages arriving from other ranks are inputs"""
+    ops, cf = ctx.path("opsr_%s" % tag), ctx.path("cr_%s" % tag)
+    args = ["mpiexec", "--allow-run-as-root", "--oversubscribe", "-n", str(ranks), ctx.path("hrun_mpi"), "rank", ops, cf] + \
+           ["%s=%s" % kv for kv in sorted(cfg.items())]
+    rc, out = vlib.run(args, timeout=180, env={"ASAN_OPTIONS": "detect_leaks=0"})
+    stats = []
+    for l in out.splitlines():
+        if l.startswith("RANK") and "{" in l:
+            try:
+                stats.append(json.loads(l[l.index("{"):]))
+            except ValueError:
+                pass
+    res = {"cfg": dict(cfg, ranks=ranks), "rc": rc, "out": out[-1200:], "stats": stats, "div": None, "lines": 0}
+    if rc == 124 or any(st["outcome"] == "hang" for st in stats):
+        res["outcome"] = "hang"
+    elif rc != 0 or len(stats) != ranks:
+        res["outcome"] = "crash"
+    else:
+        res["outcome"] = "ok"
+    for r in range(ranks):
+        o_f, c_f = "%s.%d" % (ops, r), "%s.%d" % (cf, r)
+        if not (os.path.exists(o_f) and os.path.exists(c_f)):
+            continue
+        lf = c_f + ".lean"
+        ctx.driver("par", o_f, lf)
+        o = open(o_f, errors="replace").read().splitlines()
+        c = open(c_f, errors="replace").read().splitlines()
+        l = open(lf, errors="replace").read().splitlines()
+        n = min(len(c), len(l), len(o))
+        res["lines"] += n
+        if res["div"] is None:
+            for i in range(n):
+                if c[i] != l[i]:
+                    res["div"] = {"rank": r, "line": i + 1, "op": o[i][:200], "impl": c[i], "model": l[i]}
+                    break
+        for f in (o_f, c_f, lf):
+            try:
+                os.remove(f)
+            except OSError:
+                pass
+    return res
+
+
 def run(ctx):
     ctx.trusted += ["MPI library (OpenMPI, ranks on one host), real message timing between ranks is not controlled: within a rank the token "
                     "scheduler serialises the worker threads, across ranks the interleaving is whatever the OS/MPI produce",
                     "the judge is the Lean sequential executor of the same GenModel instance (Model/GenModel.lean, Driver seqRun)",
-                    "remote-message paths of process.c/mpi.c (remote anti-messages, early anti-messages, id stamping) are NOT modelled at LP level: "
-                    "they are covered only through the committed outcome (partial)"]
+                    "rank mode: every rank's full trace is re-executed on the LP model including remote sends, remote anti-messages (matched by id "
+                    "word + m_seq), early anti-messages and the free-at-GVT list; the CONTENT of a message arriving from another rank is an input "
+                    "of that rank's re-execution (that what is sent is what arrives is MPI's business)"]
     ctx.assumptions += ["valid-model contract V1-V5", "runs that hang at shutdown (known finding F1, multi-rank variant) are compared up to the hang"]
     runlib.lean_part(ctx, "RootSim.Props.C01Sorted", THEOREMS)
     runlib.lean_part(ctx, "RootSim.Props.PrefixUnique", THEOREMS_D)
@@ -127,6 +173,44 @@ def run(ctx):
                 hangs += 1
             if len(agg.samples) < 5 and r["sample"]:
                 agg.samples.append({"cfg": r["cfg"], "events": r["sample"]})
+    # ---- rank mode: LP-level re-execution of every rank, remote paths included
+    rjobs = []
+    for i in range(6 if ctx.tier == "quick" else 120):
+        c = runlib.gen_configs(ctx, 1)[0]
+        ranks = rnd.choice([2, 2, 3])
+        c.update({"seed": rnd.randrange(1, 1 << 30), "mseed": rnd.randrange(1, 1 << 30), "lps": rnd.choice([4, 6, 8]),
+                  "threads": rnd.choice([1, 2, 2]), "thr": rnd.choice([40, 80, 150]), "burst": rnd.choice([0, 20, 100]),
+                  "ckpt": rnd.choice([1, 2, 3, 7]), "period": rnd.choice([0, 10, 1000])})
+        c.pop("budget", None)
+        if i % 3 == 2:
+            # some LPs satisfy their predicate very early and stay frozen (they still receive, process and have cancelled remote
+            # events while their history is repeatedly emptied by fossil collection), checkpoint after every event, back-to-back GVT
+            c.update({"thr": 20, "spread": rnd.choice([1500, 3000]), "ckpt": 1, "period": 0, "types": 2, "mem": 0, "rng": 0,
+                      "fan": rnd.choice([3, 4]), "burst": rnd.choice([20, 60])})
+        rjobs.append((i, c, ranks))
+    ragg = {"runs": 0, "lines": 0, "outcomes": {}, "tot": {}}
+    rdivs = []
+    with concurrent.futures.ThreadPoolExecutor(max_workers=4) as ex:
+        for r in ex.map(lambda j: run_rank(ctx, j[1], j[2], "r%d" % j[0]), rjobs):
+            ragg["runs"] += 1
+            ragg["lines"] += r["lines"]
+            ragg["outcomes"][r["outcome"]] = ragg["outcomes"].get(r["outcome"], 0) + 1
+            for st in r["stats"]:
+                for k, v in st.items():
+                    if isinstance(v, int):
+                        ragg["tot"][k] = ragg["tot"].get(k, 0) + v
+            if r["div"]:
+                rdivs.append(r)
+            if r["outcome"] == "crash":
+                ctx.violation("runtime-crash", {"cfg": r["cfg"], "output": r["out"][-600:]}, True)
+    ctx.oblige("correspondence:rank (LP-level re-execution of every rank of %d multi-rank runs, %d trace lines; remote sends, remote and "
+               "early anti-messages, free-at-GVT)" % (ragg["runs"], ragg["lines"]), not rdivs,
+               json.dumps({"cfg": rdivs[0]["cfg"], "div": rdivs[0]["div"]}) if rdivs else "")
+    for k in ("s_rb_mismatch", "s_below_gvt", "s_gvt_decrease", "s_double_free", "s_vote_false_pred"):
+        if ragg["tot"].get(k, 0):
+            ctx.violation("oracle:" + k, {"count": ragg["tot"][k], "mode": "rank"}, True)
+    ctx.coverage["rank_mode"] = {"runs": ragg["runs"], "trace_lines_compared": ragg["lines"], "outcomes": ragg["outcomes"],
+                                 "remote_antis": ragg["tot"].get("antis_remote", 0), "early_antis": ragg["tot"].get("early_antis", 0)}
     ctx.oblige("correspondence:dist (committed stream + final states of %d multi-rank runs vs the Lean sequential executor, %d lines)"
                % (agg.runs, agg.lines), not agg.divs,
                json.dumps({"cfg": agg.divs[0]["cfg"], "div": agg.divs[0]["div"]}) if agg.divs else "")
